@@ -89,7 +89,10 @@ func (provider *Provider) Layout(name string) (tmpl *template.Template, err erro
 	if name == "" {
 		name = goathtml.DefaultLayout
 	}
-	if tmpl, ok = provider.layouts[name]; ok {
+	provider.layoutMutex.Lock()
+	tmpl, ok = provider.layouts[name]
+	provider.layoutMutex.Unlock()
+	if ok {
 		return tmpl, nil
 	}
 	return provider.layout(name)
@@ -145,7 +148,10 @@ func (provider *Provider) View(layoutName, viewName string) (tmpl *template.Temp
 		return nil, goaterr.Errorf("goathtml.Provider: A view name is required")
 	}
 	key = layoutName + ":" + viewName
-	if tmpl, ok = provider.views[key]; ok {
+	provider.viewMutex.Lock()
+	tmpl, ok = provider.views[key]
+	provider.viewMutex.Unlock()
+	if ok {
 		return tmpl, nil
 	}
 	return provider.view(layoutName, viewName, key)
